@@ -8,7 +8,7 @@ real classes — `soup.connect` against a loopback soup server of the library, e
 thread are held at gates placed (from outside, nothing in /repo is edited) at exactly the statements the model's program
 counters name: `_must_be_active`, `run_coroutine_threadsafe`, `future.result`, `close_lock` enter/exit,
 `closed_event.is_set/wait/set`, `SyncExecutor.stop/join`, `AsyncSession.close` entry, the injected `on_close_coro`, the
-`loop.stop` callback.  After each step the observable state (where each thread stands, job states, lock owner, event, stop
+`loop.stop` callback (a `_wait_for` that polls `future.result` in slices passes the `wait` gate once).  After each step the observable state (where each thread stands, job states, lock owner, event, stop
 requested, thread alive, is_closed, queue size) is compared with the model (correspondence); independently the oracle
 checks the property statement on what the implementation did: every call returned or raised, the thread has exited and
 the session reports closed when close/logout returns, later calls raise StateError.
@@ -28,16 +28,13 @@ DRIVER = 'drv_C20'
 OPS = ['recv', 'send', 'sendUnseq', 'close', 'logout', 'execTimed']
 PEER = ['reply', 'eos', 'disc']
 
-# findings of the unchanged tree (each has a Witness theorem and a /verif/fixes file); narrow signatures
+# Library fixes 86c1975 / 1753c2b / 564383d repaired submit-after-stop, the close_lock deadlock and send_unseq_data after
+# close: their interleavings are regressions now (Witness theorems + corpus/C20, must pass).  What remains of the queue's
+# single `_recv_task` slot cannot block for ever any more on the repaired tree (the forgotten receiver gets StateError once
+# the thread has exited); the entry stays for trees without 1753c2b.
 KNOWN_LOCAL = [
-    {'id': 'C20-submit-after-stop', 'property': 'C20', 'status': 'known', 'signature': {'kind': 'submit-after-stop'},
-     'what': 'a call that passed _must_be_active() and submits its coroutine after AsyncSession.close began is never answered: future.result() blocks for ever'},
-    {'id': 'C20-close-lock-deadlock', 'property': 'C20', 'status': 'known', 'signature': {'kind': 'close-lock-deadlock'},
-     'what': 'close()/logout() hold close_lock while waiting for the loop; on_close_coro takes the same lock ON the loop thread: both wait for ever'},
     {'id': 'C20-concurrent-receive', 'property': 'C20', 'status': 'known', 'signature': {'kind': 'concurrent-receive'},
      'what': 'two receive() calls blocked at once: the queue keeps one _recv_task; closing wakes only that one, the other blocks for ever'},
-    {'id': 'C20-unseq-after-close', 'property': 'C20', 'status': 'known', 'signature': {'kind': 'unseq-after-close'},
-     'what': 'send_unseq_data() bypasses the executor: after close() it returns normally instead of raising StateError'},
 ]
 
 
@@ -210,7 +207,7 @@ class GatedEvent:
     def is_set(self):
         tid = cur_tid()
         if tid is not None:
-            W.gates.park(tid, 'haveLock' if tid == 'L' else 'chkEvt')
+            W.gates.park(tid, 'inCb' if tid == 'L' else 'chkEvt')
         return self.real.is_set()
 
     def set(self):
@@ -569,7 +566,7 @@ def run_scenario(server, sc):
     stalled, progress = {}, [0]
 
     def loop_free():
-        return c.bridge._thread.is_alive() and g.position('L') not in ('wantLock', 'haveLock', 'stopCalled', 'eventSet')
+        return c.bridge._thread.is_alive() and g.position('L') not in ('wantLock', 'inCb', 'stopCalled', 'eventSet')
 
     for k, lab in enumerate(labels):
         diverged = bool(res['disagree'])
@@ -670,7 +667,7 @@ def run_scenario(server, sc):
     pre_alive = c.bridge._thread.is_alive()
     pre_lock_owner = W.lock.owner
     pre_L = g.position('L')
-    g.open_all(loop, pre_alive and pre_L not in ('wantLock', 'haveLock', 'stopCalled', 'eventSet'))
+    g.open_all(loop, pre_alive and pre_L not in ('wantLock', 'inCb', 'stopCalled', 'eventSet'))
     W.stop_released = True
     if W.close_released is not None and pre_alive:
         try:
@@ -937,7 +934,7 @@ def oracle_findings(sc, r):
         for i, hs in enumerate(r['hist']):
             for (op, out_, alive, closed, start, endno) in hs:
                 if start > first_close and out_ != expected_after_close(op):
-                    kind = 'unseq-after-close' if op == 'sendUnseq' else 'no-state-error-after-close'
+                    kind = 'no-state-error-after-close'
                     out.append((f'T{i} {op}() started after close()/logout() had returned and ended with {out_!r} instead of '
                                 f'{expected_after_close(op)!r}', dict(base, kind=kind, caller=i, op=op, outcome=out_)))
     return out
@@ -1066,11 +1063,11 @@ def attach_traces(ctx, scs):
 
 FALLBACK = [   # used when the model driver cannot be built: the oracle still runs on forced interleavings
     ({'progs': [['send', 'recv', 'close', 'recv']], 'peer': ['reply']},
-     'c0 c0 c0 c0 j0 c0 peer c0 c0 c0 j0 c0 c0 c0 c0 c0 c0 c0 j0 c0 c0 close close close close close close stop c0 c0 c0 c0'),
+     'peer c0 c0 c0 c0 j0 c0 c0 c0 c0 j0 c0 c0 c0 c0 c0 c0 c0 j0 c0 close c0 close close close c0 stop c0 c0 c0'),
     ({'progs': [['recv'], ['close']], 'peer': []},
-     'c0 c0 c0 j0 c1 c1 c1 c1 c1 c1 j1 c1 c1 close close close close close close stop c1 c1 c0'),
+     'c1 c1 c0 c1 c0 c1 c1 c0 c1 j0 j1 close c1 c1 close close close c1 c0 stop c1'),
     ({'progs': [['recv'], ['logout', 'send']], 'peer': ['eos']},
-     'c0 c0 c0 j0 peer close close close close close close stop c0 c1 c1 c1 c1 c1 c1 c1 c1'),
+     'c0 peer close c0 close close close stop c1 c0 c1 c1 c1 c0 c1 c1 c1 c1'),
 ]
 
 
@@ -1102,7 +1099,7 @@ def run(ctx):
     _install_known(ctx)
     rng = ctx.rng
     quick = ctx.tier == 'quick'
-    n_cfg = 220 if quick else 2600
+    n_cfg = 700 if quick else 6000
     ctx.cov['rule'] = ('configuration = 1..3 caller threads x programs of 1..3 calls over {recv, send, sendUnseq, close, logout, execTimed} '
                        'x 0..3 peer events {reply, eos, disc}; for each, maximal interleavings generated by the model (one unrestricted, '
                        'one preferring steps outside the known-defect window) and forced on the real classes statement by statement; '
